@@ -50,6 +50,9 @@ CLAIMED = {
  'C05': dict(cat='model_checking', tech='exhaustive enumeration of closed-loop orbits (filter x configuration x true attitude x initial-error axis/angle x zero-mean gyro-noise pattern) run to a per-configuration horizon on the real filters; reachability of the target set and invariance afterwards',
    text='27 filter configurations (Madgwick, Mahony, EKF, UKF, AQUA, ROLEQ, FKF, Complementary; IMU/MARG; NED/ENU; default and non-default gains; 10 and 100 Hz) x 6 true attitudes x 6 axes x 6 initial error angles (0..175 deg) x 10 zero-mean periodic gyro-noise patterns in the thorough tier (quick: a fixed sub-grid incl. 150 and 175 deg); every orbit is run to its horizon (about twice the slowest measured settling time) and must be finite and unit at every step, within tolerance at the horizon and over the last 10 %, and never end farther than it started.',
    note='Noise realisations are a finite menu of periodic patterns, not all realisations; horizons/tolerances are per configuration (evidence lists them); known findings: UKF (covariance not positive definite / divergence), FKF (algebraic convergence, slower than the horizon from >= 30 deg).'),
+ 'C07': dict(cat='exploration', tech='exhaustive per-row differential walk: whole batch, row-reversed batch and every one-row batch of a designed alphabet through each N-row entry point versus the single-item entry point on the real code',
+   text='1 087 quaternion rows (octahedral and icosahedral groups, an oblique conjugate, 17 axes x 47 angles incl. half-turns and 1e-12) through every Quaternion/QuaternionArray twin, q2R and DCM.from_quaternion; 2 560 angle triples through the rpy constructors; all 7 DCM->quaternion methods as N x 3 x 3 versus 3 x 3 and through the array constructor; 2 976 quaternion pairs (all pairs of the octahedral group, near-equal and near-antipodal pairs from 1e-6 rad) through the batch and single metrics; every single-frame estimator entry with N samples versus one-sample constructor versus estimate(); option pass-through on both paths. Rows are independent, so whole batch + reversed batch + all one-row batches are exhaustive per row.',
+   note='Differential tolerance 1e-12 (1e-9 for metrics); estimator outputs compared as attitudes (sign / 2 pi agnostic).'),
 }
 PENDING_REASON = 'check not built yet in this session (planned in DESIGN.md section 3); not claimed until it runs clean'
 
